@@ -744,6 +744,11 @@ func gen(r *vh.Rand, tier string) []string {
 				pre = strings.Repeat("L", r.Range(1, 2))
 				bumpTinyUnl(t) // a Left before Start may self-start a part at the wall clock
 			}
+			if r.Chance(1, 12) {
+				// a second Start: MarkStarted must panic "schedule is already started" (and nothing after it runs)
+				pos := r.Intn(len(ops) + 1)
+				ops = ops[:pos] + "S" + ops[pos:]
+			}
 			ops = pre + "S" + ops
 		} else if r.Chance(1, 2) {
 			ops = "N" + ops
@@ -854,7 +859,7 @@ func gen(r *vh.Rand, tier string) []string {
 	// self-starting schedules under contention (the engine never calls Start: the first Next calls of
 	// the instances sharing a schedule start it): small finite trees, 2-4 (sometimes more) callers
 	// released together, many short drains
-	nsr, sriters := 16, 12000
+	nsr, sriters := 16, 6000
 	if tier == "thorough" {
 		nsr, sriters = 64, 30000
 	}
